@@ -512,7 +512,9 @@ class Exprs:
             f = z3.Function("repr_of_str", SEQ, SEQ)
             if isinstance(v, VStr):
                 r = f(v.t)
-                self.path.add_fact(z3.Length(r) >= 2)
+                n = z3.Length(r)
+                # repr of a str: quoted with ' or ", line breaks are escaped
+                self.path.add_fact(z3.And(n >= 2, z3.Or(r[0] == 39, r[0] == 34), r[n - 1] == r[0]))
                 return VStr([r])
             return self.opaque_str("repr")
         if isinstance(v, VOpt):
@@ -533,6 +535,12 @@ class Exprs:
             return self.opaque_str("fmtunion")
         if isinstance(v, VEnum) and not spec:
             return self.opaque_str("fmtenum")
+        if isinstance(v, VExc):
+            s = self.opaque_str("exc-text")
+            n = z3.Length(s.t)
+            self.path.add_fact(z3.And(n > 0, s.t[n - 1] != 10, s.t[0] != 10))
+            self.note_assumption("str(exception) of a library exception is non-empty and has no leading/trailing line break")
+            return s
         if isinstance(v, VExt):
             if v.kind.endswith("Path"):
                 return self.path_str(v)
@@ -810,6 +818,13 @@ class Exprs:
             s = self.as_str(item, node, fr)
             if container.py is not None and s.py is not None:
                 return z3.BoolVal(s.py in container.py)
+            if s.parts and all(not isinstance(p, str) for p in s.parts):
+                # the needle is literally a run of parts of the rope
+                ids = [p.get_id() for p in s.parts]
+                hay = [None if isinstance(p, str) else p.get_id() for p in container.parts]
+                for k in range(len(hay) - len(ids) + 1):
+                    if hay[k:k + len(ids)] == ids:
+                        return z3.BoolVal(True)
             if container.py is not None:
                 cc = self.char_code(s)
                 if cc is not None:
@@ -924,6 +939,9 @@ class Exprs:
         if not base.tail:
             return base.base_get(j)
         res: Optional[V] = base.base_get(j)
+        building = bool(self._qstate()["bound"])
+        if not building and any(isinstance(v, VStr) for v in base.tail):
+            res = None  # an if-then-else between strings is poison for the sequence solver: fork instead
         for k, v in enumerate(base.tail):
             if res is None:
                 break
@@ -987,6 +1005,9 @@ class Exprs:
         return NONE
 
     def dict_set(self, d: VDict, key: V, val: V, fr: Frame, node: Any) -> None:
+        if not hasattr(d, "log"):
+            d.log = []  # type: ignore
+        d.log.append((key, val))  # type: ignore
         for i, (k, _) in enumerate(d.items):
             c = z3.simplify(self.eq(key, k))
             if z3.is_true(c):
